@@ -19,7 +19,7 @@ ASSUMPTIONS = [
 
 
 def plan(tier):
-    return {"budget_s": 60 if tier == "quick" else 480, "profiles": ["R"], "min_evaluations": 1000}
+    return {"budget_s": 60 if tier == "quick" else 480, "profiles": ["R"], "min_evaluations": 1000, "params": {"worker_timeout": 5}}
 
 
 NUMS = ["0.5", "-0.5", ".25", "0.125", "1.5", "10", "0", "-0.0", "0.999", "1e-3", "100%", "0.5px", "-.5em", "0.05s",
